@@ -17,7 +17,13 @@ from . import exprgen as eg
 #          ("tref", is_value, data|None)        data: [("named", k, tree) | ("short", k) | ("spread", tree)]
 #          ("include", src) ("import", src) ("slot", name_value|None, [(name, value)])
 #          ("comment", text) ("wxs", module, content)
-#  template: {"nodes": [...], "subs": {name: [nodes]}, "path": str}
+#  attribute family "slot:" : ("slot:", slot_value_name, None | ("static", alias)) introduces the scope variable alias-or-name
+#  template: {"nodes": [...], "subs": {name: [nodes]}, "path": str, "modules": [(name, content)]}
+#  script modules are file-level scopes (visible in the main template and in every <template name> body)
+
+MODULE_POOL = [("m", "exports.tag='wxs-m';exports.wrap=function(v){return '['+v+']'};exports.o={p:7,k:'mk'}"),
+               ("fmt", "exports.tag='wxs-fmt';exports.wrap=function(v){return '<'+v+'>'};exports.o={p:8,k:'fk'}"),
+               ("a", "exports.tag='wxs-a';exports.wrap=function(v){return '('+v+')'};exports.o={p:9,k:'ak'}")]
 
 FAMILIES = ["plain", "class", "style", "id", "slot", "data-", "data:", "mark:", "bind:", "catch:", "mut-bind:",
             "capture-bind:", "capture-catch:", "capture-mut-bind:", "model:", "change:", "worklet:", "generic:", "extra-attr:"]
@@ -43,11 +49,32 @@ class TmplGen:
         self.max_depth = max_depth
         self.subs = {}
         self.uid = 0
+        # file-level script modules (sometimes named like a data field / a usual scope variable)
+        self.modules = []
+        if rng.chance(1, 3):
+            k = 1 + rng.below(2)
+            start = rng.below(len(MODULE_POOL))
+            self.modules = [MODULE_POOL[(start + i) % len(MODULE_POOL)] for i in range(k)]
+        self.slot_values = rng.chance(1, 4)    # elements may carry `slot:` value references
+
+    def module_expr(self, k):
+        r = self.rng
+        mod = ("data", r.choice(self.modules)[0])
+        c = r.below(4)
+        if c == 0:
+            return ("smember", mod, "tag")
+        if c == 1:
+            return ("call", ("smember", mod, "wrap"), [k()])
+        if c == 2:
+            return ("smember", ("smember", mod, "o"), r.choice(["p", "k"]))
+        return ("dmember", ("smember", mod, "o"), ("str", r.choice(["p", "k"]), '"'))
 
     # ---- expressions (a fragment whose values the reference evaluates with native JS) ----
     def expr(self, scope_names, depth=2):
         r = self.rng
         names = list(self.data_names) + list(scope_names) * 2
+        if self.modules and r.chance(1, 5):
+            return self.module_expr(lambda: self.expr(scope_names, min(depth, 1) - 1))
         if depth <= 0 or r.chance(2, 5):
             c = r.below(10)
             if c < 6:
@@ -78,9 +105,11 @@ class TmplGen:
         if c == 7:
             return ("call", ("data", r.choice(["f", "g"] + list(scope_names))), [k() for _ in range(r.below(3))])
         if c == 8:
-            return ("arr", [r.choice([("item", k()), ("item", k()), ("hole",)]) for _ in range(1 + r.below(3))])
+            return ("arr", [r.choice([("item", k()), ("item", k()), ("hole",), ("item", ("int", 7))]) for _ in range(1 + r.below(4))])
         if c == 9:
-            return ("obj", [("named", r.choice(["p", "q", "k"]) + str(i), False, k()) for i in range(1 + r.below(2))])
+            # fields with and without data dependencies, in every order (a constant field between two dependent ones, ...)
+            return ("obj", [("named", r.choice(["p", "q", "k"]) + str(i), False, k() if r.chance(2, 3) else r.choice([("int", 1), ("str", "c", '"'), ("bool", True)]))
+                            for i in range(1 + r.below(4))])
         if c == 10:
             return ("smember", ("obj", [("named", "p", False, k()), ("named", "q", False, k())]), r.choice(["p", "q"]))
         if c == 11:
@@ -95,8 +124,18 @@ class TmplGen:
         if kind == "expr":
             return ("expr", self.expr(scope_names))
         parts = []
+        style = r.below(3)
         for i in range(2 + r.below(3)):
-            if i % 2 == (0 if r.chance(1, 2) else 1) or not parts:
+            if style == 0:
+                # strictly alternating, starting with a static piece
+                is_static = i % 2 == 0
+            elif style == 1:
+                # starting with a binding
+                is_static = i % 2 == 1
+            else:
+                # free: bindings may be adjacent ({{a}}{{b}}) and may lead
+                is_static = r.chance(1, 3)
+            if is_static:
                 parts.append(("s", r.choice(["a", " ", "x-", "é", "&", "<", "-", "1"])))
             else:
                 parts.append(("e", self.expr(scope_names, 1)))
@@ -112,6 +151,27 @@ class TmplGen:
         if len(merged) == 1 and merged[0][0] == "e":
             return ("expr", merged[0][1])
         return ("mixed", merged)
+
+    def slot_refs(self):
+        """`slot:` value references of a plain element: [("slot:", name, alias)]"""
+        r = self.rng
+        if not self.slot_values or not r.chance(1, 3):
+            return []
+        res, seen = [], set()
+        for _ in range(1 + r.below(3)):
+            name = r.choice(["a", "b", "sv", "item", "x-y"])
+            if name in seen:
+                continue
+            seen.add(name)
+            alias = r.choice([None, None, ("static", r.choice(["a", "b", "c", "item", "index", "it"]))])
+            if alias is None and "-" in name:
+                alias = ("static", "xy")
+            res.append(("slot:", name, alias))
+        return res
+
+    @staticmethod
+    def slot_scope(refs):
+        return [(a[2][1] if a[2] is not None else a[1]) for a in refs]
 
     def attrs(self, scope_names, on_slot=False):
         r = self.rng
@@ -182,7 +242,9 @@ class TmplGen:
                 v = ("static", "t" + v[1])
             return ("text", v)
         if c < 6:
-            return ("elem", r.choice(["view", "text", "cmp-x", "v"]), self.attrs(scope_names), self.children(scope_names, depth - 1, in_sub))
+            refs = self.slot_refs()
+            inner = scope_names + self.slot_scope(refs)
+            return ("elem", r.choice(["view", "text", "cmp-x", "v"]), refs + self.attrs(inner), self.children(inner, depth - 1, in_sub))
         if c == 6:
             return ("block", self.children(scope_names, depth - 1, in_sub))
         if c in (7, 8):
@@ -192,6 +254,8 @@ class TmplGen:
                 index = None
             key = r.choice([None, "k", "*this", "id"])
             lst = r.choice([("expr", ("data", "l")), ("expr", ("data", "o")), ("expr", self.expr(scope_names, 1)),
+                            ("expr", ("bin", "LogicAnd", ("data", r.choice(["o", "c", "a"])), ("data", "l"))),
+                            ("expr", ("bin", "LogicOr", ("data", r.choice(["d", "x"])), ("data", r.choice(["l", "o"])))),
                             ("expr", ("arr", [("item", ("int", 1)), ("item", ("data", "a"))])), ("static", "ab")])
             inner = scope_names + [item or "item", index or "index"]
             return ("for", lst, item, index, key, self.carrier(inner, depth, in_sub))
@@ -213,7 +277,9 @@ class TmplGen:
             for i in range(r.below(3)):
                 ch = r.below(3)
                 if ch == 0:
-                    data.append(("named", r.choice(["a", "b", "c"]), self.expr(scope_names, 1)))
+                    data.append(("named", r.choice(["a", "b", "c"]), r.choice([self.expr(scope_names, 1), self.expr(scope_names, 1),
+                                 ("bin", "LogicAnd", ("data", "o"), ("data", r.choice(["l", "o"]))),
+                                 ("bin", "LogicOr", ("data", "d"), ("data", "o"))])))
                 elif ch == 1:
                     data.append(("short", r.choice(["a", "l", "o"])))
                 else:
@@ -226,14 +292,16 @@ class TmplGen:
             return ("slot", r.choice([None, ("static", "s1"), ("expr", ("data", "n"))]), [])
         if c == 13:
             return ("comment", r.choice([" c ", "x--y", "<view>", ""]))
-        return ("elem", "view", self.attrs(scope_names), self.children(scope_names, depth - 1, in_sub))
+        refs = self.slot_refs()
+        inner = scope_names + self.slot_scope(refs)
+        return ("elem", "view", refs + self.attrs(inner), self.children(inner, depth - 1, in_sub))
 
     def template(self, path="p"):
         nodes = self.children([], self.max_depth)
         if not nodes:
             nodes = [("text", ("static", "empty"))]
         subs = {k: v for k, v in self.subs.items() if v is not None}
-        return {"path": path, "nodes": nodes, "subs": subs}
+        return {"path": path, "nodes": nodes, "subs": subs, "modules": list(self.modules), "slot_values": self.slot_values}
 
 
 # ---------------------------------------------------------------------------------------------
@@ -299,6 +367,8 @@ class Printer:
         return s
 
     def attr(self, fam, name, v):
+        if fam == "slot:":
+            return "slot:" + name if v is None else 'slot:%s="%s"' % (name, v[1])
         full = name if fam in ("plain", "class", "style", "id", "slot") else fam + name
         if fam in ("class", "style", "id", "slot"):
             full = fam
@@ -394,9 +464,12 @@ class Printer:
         for name, body in subs:
             out.append('<template name="%s">%s</template>' % (name, self.nodes(body)))
         body = self.nodes(t["nodes"])
+        mods = "".join('<wxs module="%s">%s</wxs>' % (n, c) for n, c in t.get("modules", []))
         if self.vary and self.rng.chance(1, 2):
-            return body + "".join(out)
-        return "".join(out) + body
+            return body + "".join(out) + mods
+        if self.vary and self.rng.chance(1, 2):
+            return "".join(out) + body + mods
+        return mods + "".join(out) + body
 
 
 def requote(tree, q):
@@ -449,6 +522,11 @@ class RefJs:
         _, tag, attrs, children = n
         e = self.fresh("e")
         self.emit(f"var {e}={{tag:{eg.js_str(tag)},calls:[]}};")
+        # slot values: the value of slot value `n` is the probe string "SV:n" (see js/runner.mjs, "slotValues")
+        for fam, name, v in attrs:
+            if fam == "slot:":
+                # the slot value is looked up by the camel-cased name; the scope variable is the alias, else the name as written
+                scopes = scopes + [(v[1] if v is not None else name, eg.js_str("SV:" + camel(name)))]
         self.attr_calls(e, attrs, scopes, D, on_slot=False)
         ch = self.fresh("c")
         self.emit(f"var {ch}=[];")
@@ -459,6 +537,8 @@ class RefJs:
     def attr_calls(self, e, attrs, scopes, D, on_slot):
         js = eg.js_str
         for fam, name, v in attrs:
+            if fam == "slot:":
+                continue
             val = self.val(v, scopes, D)
             if fam == "plain":
                 if on_slot:
@@ -567,14 +647,19 @@ class RefJs:
 
     def build(self):
         subs_js = []
+        # script modules: file-level scopes, the outermost ones, in the main template and in every named template
+        mods = self.t.get("modules", [])
+        base = [(n, "MOD%d" % i) for i, (n, c) in enumerate(mods)]
+        mods_js = "".join("var MOD%d=(function(){var module={exports:{}};var exports=module.exports;%s;return module.exports})();" % (i, c)
+                          for i, (n, c) in enumerate(mods))
         for name, body in self.t["subs"].items():
             self.lines = []
-            self.nodes(body, "out", [], "D")
+            self.nodes(body, "out", list(base), "D")
             subs_js.append(f"SUBS[{eg.js_str(name)}]=function(D,out){{" + "".join(self.lines) + "};")
         self.lines = []
-        self.nodes(self.t["nodes"], "out", [], "D")
+        self.nodes(self.t["nodes"], "out", list(base), "D")
         main = "".join(self.lines)
-        return ("(function(D){var SUBS=Object.create(null),INCLUDES=Object.create(null);" + "".join(subs_js) +
+        return ("(function(D){var SUBS=Object.create(null),INCLUDES=Object.create(null);" + mods_js + "".join(subs_js) +
                 "var out=[];" + main + "return out})")
 
 
@@ -723,6 +808,11 @@ def field_uses(t):
 
     def elem(n, dyn, bound):
         for fam, name, v in n[2]:
+            if fam == "slot:":
+                bound = tuple(bound) + ((v[1] if v is not None else name),)
+        for fam, name, v in n[2]:
+            if fam == "slot:":
+                continue
             (unreach if dyn else reach).update(value_fields(v, bound))
         nodes(n[3], dyn, bound)
 
@@ -766,5 +856,5 @@ def field_uses(t):
         elif k == "include":
             has_include[0] = True
 
-    nodes(t["nodes"], False, ())
+    nodes(t["nodes"], False, tuple(n for n, _ in t.get("modules", [])))
     return reach, unreach, has_include[0]
